@@ -2922,7 +2922,11 @@ fn real_sock(r: &mut Rng, ring: &mut Ring, k: Kd, out: &mut RealOut) -> Result<(
     let g = block_on(ring, sock.socket_option::<o::TcpNoDelay>()).ok_or("get hangs")?;
     let want = lget(libc::IPPROTO_TCP, libc::TCP_NODELAY) != 0;
     if s.is_err() || g.as_ref().ok().copied() != Some(on) || want != on {
-        out.fail(format!("TcpNoDelay({on}) on a {k:?} descriptor: set {s:?}, get {g:?}, the socket itself says {want}"), if k == Kd::Direct { Some("fallback-direct-as-fd") } else { None });
+        // A direct descriptor has no synchronous equivalent: since the repair of H21 it keeps the
+        // kernel's EOPNOTSUPP (known finding H27); anything else (an answer from an unrelated
+        // descriptor, H21) is a violation.
+        let honest = k == Kd::Direct && errno_of(&s) == Some(Some(libc::EOPNOTSUPP)) && errno_of(&g) == Some(Some(libc::EOPNOTSUPP));
+        out.fail(format!("TcpNoDelay({on}) on a {k:?} descriptor: set {s:?}, get {g:?}, the socket itself says {want}"), if honest { Some("direct-no-sync-equivalent") } else { None });
     }
     // Names.
     let addr = SocketAddrV4::new(Ipv4Addr::LOCALHOST, 0);
@@ -2938,7 +2942,8 @@ fn real_sock(r: &mut Rng, ring: &mut Ring, k: Kd, out: &mut RealOut) -> Result<(
         Err(_) => Err(std::io::Error::other("local_addr panicked (address of an unrelated descriptor)")),
     };
     if b.is_err() || g.as_ref().ok() != Some(&want) || want.port() == 0 {
-        out.fail(format!("bind + local_addr on a {k:?} descriptor: bind {b:?}, local_addr {g:?}, getsockname says {want}"), if k == Kd::Direct && b.is_ok() && want.port() != 0 { Some("fallback-direct-as-fd") } else { None });
+        let honest = k == Kd::Direct && b.is_ok() && want.port() != 0 && errno_of(&g) == Some(Some(libc::EOPNOTSUPP));
+        out.fail(format!("bind + local_addr on a {k:?} descriptor: bind {b:?}, local_addr {g:?}, getsockname says {want}"), if honest { Some("direct-no-sync-equivalent") } else { None });
     }
     unsafe { libc::close(twin) };
     let _ = errno_of(&b);
